@@ -1421,7 +1421,9 @@ fn build_moov_box(
     // The movie lasts as long as its longest track (the audio track may well outlast the
     // video track), not as long as the video track.
     let video_duration_media = video_tables.total_duration();
-    let audio_duration_media = audio.map(|(_, tables)| tables.total_duration()).unwrap_or(0);
+    let audio_duration_media = audio
+        .map(|(_, tables)| tables.total_duration())
+        .unwrap_or(0);
     let movie_duration_media = video_duration_media.max(audio_duration_media);
     let movie_duration_ms = (u128::from(movie_duration_media) * u128::from(MOVIE_TIMESCALE)
         / u128::from(MEDIA_TIMESCALE)) as u64;
